@@ -211,6 +211,12 @@ def main(argv=None):
                 fh.write(REPLAY_HEADER % dict(prop=prop, ob=r["id"], desc=v.get("desc", "").replace('"""', "'''")))
                 fh.write(v["replay_src"])
             rep, out = replay_script(path)
+            if rep is not True and v.get("soft"):
+                n_inconc += 1
+                os.remove(path)
+                log("INCONCLUSIVE property=%s obligation=%s candidate from an abstracted query did not reproduce concretely: %s" % (
+                    prop, r["id"], v.get("desc", "")[:300]))
+                continue
             if rep is not True:
                 n_err += 1
                 log("HARNESS-ERROR obligation=%s counterexample did not replay (%s): %s\n%s" % (
